@@ -65,6 +65,9 @@ class C11(Check):
         self.S, self.SP2, self.SP1 = S, SP2, SP1
         self._saved = S.maskbits
         S.maskbits = S.set_maskbits(maskbits_file=os.path.join(VERIF, 'fixtures', 'maskbits.par'))
+        self.brd.per_case = 2
+        self.brd.max_call_s = 0.06
+        self.brd.attach(self.rec, SP2, 'combine1fiber', every=3)             # buffer-reuse differential (vlib/brd.py)
         self.rec.wrap(SP2, 'combine1fiber')
         self.rec.wrap(SP2, 'iterfit')
         self.rec.wrap(SP2, 'aesthetics')
